@@ -6,7 +6,7 @@ import types
 import yaml
 import yaml.constructor
 from yaml.nodes import ScalarNode, SequenceNode, MappingNode
-from symex.hlib import Job, reach, fail, exc_sig, not_a_finding, pick, CONCRETE
+from symex.hlib import Job, reach, fail, exc_sig, not_a_finding, pick, CONCRETE, no_library_imports
 from symex import standins, pymodels
 from harness.c01 import CORE_LIST, T, _place
 
@@ -133,6 +133,7 @@ def _mk(tag, kind):
     return MappingNode(tag, [])
 
 
+@no_library_imports(P)
 def dispatch(tag: str, kind: int, lc: int) -> str:
     cls = pick(lc, LOADERS)
     node = _mk(tag, kind)
@@ -171,6 +172,7 @@ def dispatch(tag: str, kind: int, lc: int) -> str:
         return fail(P, 'EXC-ON-FORBIDDEN ' + sig, tag=tag)
 
 
+@no_library_imports(P)
 def name(x: str, lc: int) -> str:
     """python/name:<x> for every suffix: only an existing attribute of an already imported module."""
     cls = pick(lc, LOADERS)
@@ -210,6 +212,7 @@ def name(x: str, lc: int) -> str:
         return 'NAME resolved in a module that is not in sys.modules'
 
 
+@no_library_imports(P)
 def forbidden(which: int, x: str, kind: int, lc: int) -> str:
     """The four object-construction prefixes with any suffix, on any node kind: ConstructorError."""
     cls = pick(lc, LOADERS)
@@ -233,6 +236,7 @@ def forbidden(which: int, x: str, kind: int, lc: int) -> str:
         return 'ACCEPTED ' + tag[:40]
 
 
+@no_library_imports(P)
 def context(tag: str, kind: int, ctx: int) -> str:
     x = _mk(tag, kind)
     root = _place(ctx, x)
@@ -296,6 +300,7 @@ class _Stubbed:
         return False
 
 
+@no_library_imports(P)
 def api(tag: str, kind: int, which: int) -> str:
     x = _mk(tag, kind)
     with Contained() as box, _Stubbed(x) as st:
@@ -324,6 +329,54 @@ def api(tag: str, kind: int, which: int) -> str:
         if is_allowed_exact(tag) or tag.startswith(NAME_PREFIX):
             return 'ok'
         return 'ACCEPTED through API %d' % which if outcome == 'value' else 'EXC-ON-FORBIDDEN through API'
+
+
+def _user_multi(loader, suffix, node):
+    return ('user', suffix)
+
+
+def history(which: int, x: str, first: int, lc: int, kind: int) -> str:
+    """a trusted load of a tag, then a full load of the very same tag in the same process: what a
+    trusted loader class has seen, matched or cached must not widen what FullLoader accepts"""
+    prefix = pick(which, FORBIDDEN_PREFIXES + ['!userm:'])
+    tag = prefix + x
+    trusted = pick(first, [yaml.UnsafeLoader, yaml.Loader, yaml.CUnsafeLoader])
+    had = '!userm:' in trusted.yaml_multi_constructors
+    if not had:
+        trusted.add_multi_constructor('!userm:', _user_multi)
+    try:
+        with Contained() as box:
+            t = trusted('')
+            try:
+                t.construct_document(_mk(tag, kind))
+            except Exception:
+                pass
+            finally:
+                t.dispose()
+            del box.log[:]              # what the trusted loader reached is its own business
+            cls = pick(lc, LOADERS)
+            loader = cls('')
+            outcome = None
+            try:
+                loader.construct_document(_mk(tag, kind))
+                outcome = 'value'
+            except yaml.constructor.ConstructorError:
+                outcome = 'rejected'
+            except Exception as e:
+                not_a_finding(e)
+                return fail(P, 'EXC-ON-FORBIDDEN ' + exc_sig(e), tag=tag)
+            finally:
+                loader.dispose()
+            v = box.violations()
+            if v:
+                return 'HISTORY after a trusted load of the same tag: ' + v
+            reach()
+            if outcome == 'value':
+                return 'HISTORY a tag seen by a trusted loader is constructed by %s afterwards' % cls.__name__
+            return 'ok'
+    finally:
+        if not had:
+            del trusted.yaml_multi_constructors['!userm:']
 
 
 def tables() -> str:
@@ -370,6 +423,8 @@ def jobs(tier):
         js.append(Job('forbidden/%d' % w, forbidden,
                       [lambda which, x, kind, lc, _w=w: which == _w and len(x) <= X and 0 <= kind <= 2 and 0 <= lc <= 1],
                       budget=120, bounds='%s + suffix len<=%d, 3 kinds, 2 classes' % (FORBIDDEN_PREFIXES[w][len(T):], X)))
+    js.append(Job('history', history, [lambda which, x, first, lc, kind: 0 <= which <= 4 and len(x) <= 3 and 0 <= first <= 2 and 0 <= lc <= 1 and 0 <= kind <= 2],
+                  budget=200, bounds='trusted load (UnsafeLoader / Loader / CUnsafeLoader) of one of the 4 object-building prefixes or a user prefix + suffix len<=3, then FullLoader / CFullLoader on the same tag, 3 node kinds'))
     for c in range(12):
         js.append(Job('context/%d' % c, context, [lambda tag, kind, ctx, _c=c: ctx == _c and _tag_ok(tag, L) and 0 <= kind <= 2],
                       budget=120, bounds='placement %d, len(tag)<=%d, 3 kinds' % (c, L)))
